@@ -25,6 +25,11 @@ CHECKS = {
    note="Trusted: Coq kernel; extraction/driver; pyparsing lexing exercised with random spacing but not modelled (DotParen_grammar acceptance is modelled as parenthesis balance). Axioms: none.",
    technique="Coq proofs on the notation model + extracted-model/implementation correspondence",
    design="5 C08"),
+ "C10": dict(
+   text="Proof: for one '?' and a declared length L >= the other parts the wildcard takes exactly L - sum, the result has length L and equals the explicit spelling; parts keep written order and multiplicity; more than one wildcard, a wildcard without length, a negative remainder and a length mismatch are all errors; in a composite the deferred '?' region lands at its written index in both the item list and the flattened base-sequence list and two '?' regions are rejected (6 theorems, closed). Correspondence over constraint lists x declared lengths, incl. compiling each single-wildcard case in its explicit spelling and reading seqs/base_seqs back from the .save.",
+   note="Trusted: Coq kernel; extraction/driver; harness/pepper.py printers/readers; pickle for the object read-back. Equality with the explicit spelling of a composite 'up to anonymous numbering' is checked by correspondence, the position theorem is proved. Axioms: none.",
+   technique="Coq proofs on the wildcard model + extracted-model/implementation correspondence",
+   design="5 C10"),
 }
 
 checks = []
